@@ -30,6 +30,7 @@ def run(ctx):
     # `children` view disagrees with the stored links right after a mutation
     from ..memo import rule_coherence
     rule_coherence(ctx, "E6")
+    linkrules.rule_W10_one_shot(ctx)
     linkrules.rule_E5_constructors(ctx, typer)
     ctx.floor("E3", 2)
     ctx.floor("E5c", 6)
@@ -62,6 +63,7 @@ def run(ctx):
     ctx.floor("E5 children assignment order", 500)
     _rule_argument_materialised_first(ctx, typer)
     _rule_child_type_check_total(ctx, typer)
+    _rule_type_refusals_admit_every_node(ctx, typer)
     # raise sites present (anchors): type check (NodeMixin only), duplicates, loop x2
     import ast
     from ..model import AnalysisError
@@ -164,6 +166,40 @@ def _rule_argument_materialised_first(ctx, typer):
                      construct="%s.children.setter: argument used before tuple()" % m)
         else:
             ctx.inst("E5", f, conv[0].ast, "argument materialised before any other use")
+
+
+def _rule_type_refusals_admit_every_node(ctx, typer):
+    """E2 (only-if direction): a type test that guards a refusal admits every tree node - it names the node mixins, never
+    the receiver's own class or an exact class: trees mix node classes (File below Directory, a base-class node below a
+    subclass node), and those calls must go through"""
+    import ast
+    from .. import tables as T
+    for m in T.MIXINS:
+        cls = ctx.p.classes.get(m)
+        if cls is None:
+            continue
+        for f in cls.funcs():
+            cfg = typer.cfg_of(f)
+            for rn in cfg.stmt_nodes(("raisestmt",)):
+                for c, o, _ in cfg.guards_of(rn):
+                    if isinstance(c, ast.Call) and isinstance(c.func, ast.Name) and c.func.id in ("isinstance", "issubclass") and len(c.args) == 2 and o is False:
+                        names = [n_.id for n_ in ast.walk(c.args[1]) if isinstance(n_, ast.Name)]
+                        own = [n_ for n_ in ast.walk(c.args[1]) if (isinstance(n_, ast.Call) and norm(n_.func) == "type") or
+                               (isinstance(n_, ast.Attribute) and n_.attr == "__class__")]
+                        if own and not any(x in T.MIXINS for x in names):
+                            ctx.viol("E2", f, c, "the call is refused unless `%s`: the test is against the class of one particular node, not against "
+                                     "the node mixins, so a legal node of another class (a sibling class, a base-class instance below a "
+                                     "subclass instance) is refused" % norm(c)[:80], construct="%s: refusal on `%s`" % (f.qual, norm(c)[:60]))
+                        elif any(x in T.MIXINS for x in names):
+                            ctx.inst("E2", f, c, "type refusal tests against the node mixins")
+                    elif isinstance(c, ast.Compare) and len(c.ops) == 1 and isinstance(c.ops[0], (ast.Is, ast.IsNot, ast.Eq, ast.NotEq)):
+                        sides = [c.left, c.comparators[0]]
+                        exact = [x for x in sides if (isinstance(x, ast.Call) and norm(x.func) == "type" and len(x.args) == 1)
+                                 or (isinstance(x, ast.Attribute) and x.attr == "__class__")]
+                        refuses_on_diff = (isinstance(c.ops[0], (ast.Is, ast.Eq)) and o is False) or (isinstance(c.ops[0], (ast.IsNot, ast.NotEq)) and o is True)
+                        if len(exact) == 2 and refuses_on_diff:
+                            ctx.viol("E2", f, c, "the call is refused when `%s` says the two nodes are of different exact classes: legal trees mix "
+                                     "node classes" % norm(c)[:80], construct="%s: refusal on `%s`" % (f.qual, norm(c)[:60]))
 
 
 def _rule_child_type_check_total(ctx, typer):
